@@ -45,6 +45,9 @@ SUM_EXT = z3.ForAll([_a, _b, _n], z3.Implies(z3.ForAll([_i], z3.Implies(z3.And(0
                                               _SUM(_a, _n) == _SUM(_b, _n)), patterns=[z3.MultiPattern(_SUM(_a, _n), _SUM(_b, _n))])
 
 
+CAPTURE = {}      # ghost records of selected library calls on the current path (cleared by the contract's pre_execute hook)
+
+
 def SUM(arr, n):
     return _SUM(arr, tz(n))
 
@@ -2063,8 +2066,20 @@ class Lib:
             k = z3.Int(fresh("cs"))
             if x.ekind == "int":
                 arr = z3.Lambda([k], z3.ToReal(z3.Select(arr, k)))
-            return SSeq(x.length, z3.Lambda([k], SUM(arr, SInt(k + 1))), "ndarray", "real")
+            r = SSeq(x.length, z3.Lambda([k], SUM(arr, SInt(k + 1))), "ndarray", "real")
+            CAPTURE.setdefault("np.cumsum", []).append((x, r))     # ghost record: contracts may name the summed sequence
+            return r
         interp.err(node, "np.cumsum(%r)" % (x,))
+
+    def f_np__isclose(self, interp, args, kwargs, node):
+        """np.isclose(a, b, rtol=1e-05, atol=1e-08) on real scalars: |a - b| <= atol + rtol * |b| (numpy's definition)"""
+        a, b = args[0], args[1]
+        rtol = args[2] if len(args) > 2 else kwargs.get("rtol", Fraction(1, 100000))
+        atol = args[3] if len(args) > 3 else kwargs.get("atol", Fraction(1, 100000000))
+        if not all(isinstance(x, SCALAR) for x in (a, b, rtol, atol)):
+            interp.err(node, "np.isclose on non-scalars")
+        ab = lambda x: Ite(compare(">=", x, 0), x, arith("-", 0, x))
+        return compare("<=", ab(arith("-", a, b)), arith("+", atol, arith("*", rtol, ab(b))))
 
     def f_np__isnan(self, interp, args, kwargs, node):
         x = args[0]
